@@ -6,6 +6,7 @@ Import ListNotations.
 
 Inductive qcase :=
 | QCase (docs : list (nat * doc)) (q : query) (ids : list nat)
+| SCase (docs : list (nat * doc)) (q : query) (ids : list nat)      (* result compared as a set, ids given sorted *)
 | ACase (docs : list (nat * doc)) (g : qfilter) (f : nat) (count sum8 : Z) (mn mx : option Z).
 
 Fixpoint ln_eqb (a b : list nat) : bool :=
@@ -17,9 +18,14 @@ Fixpoint ln_eqb (a b : list nat) : bool :=
 Definition oz_eqb (a b : option Z) : bool :=
   match a, b with None, None => true | Some x, Some y => Z.eqb x y | _, _ => false end.
 
+Fixpoint ins_nat (x : nat) (l : list nat) : list nat :=
+  match l with [] => [x] | y :: r => if Nat.leb x y then x :: l else y :: ins_nat x r end.
+Definition sort_nat (l : list nat) : list nat := fold_right ins_nat [] l.
+
 Definition check_case (c : qcase) : bool :=
   match c with
   | QCase docs q ids => ln_eqb (map fst (run_query q docs)) ids
+  | SCase docs q ids => ln_eqb (sort_nat (map fst (run_query q docs))) ids
   | ACase docs g f cnt sm mn mx =>
       Z.eqb (agg_count g docs) cnt && Z.eqb (agg_sum g f docs) sm &&
       oz_eqb (agg_min g f docs) mn && oz_eqb (agg_max g f docs) mx
